@@ -167,18 +167,15 @@ TTranspose == /\ IsEvent("transpose") /\ UNCHANGED spVars /\ UNCHANGED snap0
 \* the state is the import of the JOINED text; e = [ends, pairs, same, exports]: ends[i] = stage of the last line of fragment i,
 \* pairs = what concat returned, same = concat's document has the same snapshot as the import of the joined text,
 \* exports[i] = dumps(concat document, from_measure = pairs[i][1], to_measure = pairs[i][2])
-MeasuresUpTo(st) == Cardinality({j \in 1..Len(mstarts) : mstarts[j] <= st})
-FragmentData(e, i) == DataLines(GridFrom((IF i = 1 THEN 2 ELSE e.ends[i - 1] + 1), e.ends[i], DefaultOpts))
 ConcatChecks(e) ==
-  LET n == Len(e.ends) IN
+  LET n == Len(e.ends)  want == ConcatPairs(e.ends) IN
   << <<"concat.same_document_as_joined_import", e.same>>,
      <<"concat.one_pair_per_fragment", Len(e.pairs) = n>>,
-     <<"concat.pairs", Len(e.pairs) = n => \A i \in 1..n :
-          e.pairs[i] = <<(IF i = 1 THEN 0 ELSE MeasuresUpTo(e.ends[i - 1]) + 1), MeasuresUpTo(e.ends[i])>> >>,
+     <<"concat.pairs", e.pairs = want>>,
      <<"concat.consecutive", \A i \in 1..(Len(e.pairs) - 1) : e.pairs[i + 1][1] = e.pairs[i][2] + 1>>,
      <<"concat.last_is_measure_count", Len(e.pairs) > 0 => e.pairs[Len(e.pairs)][2] = M>>,
      <<"concat.pair_addresses_fragment", Len(e.exports) = n /\ \A i \in 1..n :
-          e.exports[i].ok /\ DataLines(e.exports[i].grid) = FragmentData(e, i)>> >>
+          e.exports[i].ok /\ DataLines(e.exports[i].grid) = FragmentDataLines(e.ends, i, DefaultOpts)>> >>
 TConcat == /\ IsEvent("concat") /\ UNCHANGED spVars /\ UNCHANGED snap0 /\ Note(ConcatChecks(Ev))
 
 (* ----------------------- measure excerpts (C08) ------------------------- *)
@@ -190,7 +187,7 @@ TXRow == IsEvent("xrow") /\ Row(Ev.cells) /\ UNCHANGED <<fails, snap0>>
 SigTextAt(p) == IF p = NoPtr THEN <<>> ELSE At(p).cell.t
 NotesGoverning == LET ptrs == Flat([s \in 1..Len(stages) |-> SelectSeq([i \in 1..Len(stages[s]) |-> <<s, i>>],
                                          LAMBDA q : s > 1 /\ stages[q[1]][q[2]].cell.k = "note")])
-                  IN [j \in 1..Len(ptrs) |-> LET n == At(ptrs[j]) IN <<n.cell.t, SigTextAt(n.sig.clef), SigTextAt(n.sig.key), SigTextAt(n.sig.time)>>]
+                  IN [j \in 1..Len(ptrs) |-> LET n == At(ptrs[j]) IN <<SigTextAt(n.sig.clef), SigTextAt(n.sig.key), SigTextAt(n.sig.time)>>]
 TXEnd == /\ IsEvent("xend") /\ UNCHANGED spVars /\ UNCHANGED snap0
          /\ Note(<< <<"excerpt.every_spine_terminated", status = "closed">>,
                     <<"excerpt.reimports_without_errors", Ev.reimport_ok /\ Ev.reimport_nerr = 0>>,
